@@ -198,6 +198,12 @@ def run_scenario(prog, scen):
         res["reload_ok"] = r2.variant == "Ok"
         res["disk_leaves"] = [x for x in leaves_of(fresh.v)] if res["reload_ok"] else []
         res["rows"] = [dict(r) for r in ctx.db.tables.get(TABLE, [])]
+        # what the log streams back (real record_stream: statement, row conversion, channel)
+        res["streamed"] = None
+        if res["reload_ok"] and scen.get("crash_at") is None:
+            st = H.poll_to_result(eng, ctx, eng.call_named(TRAIT + "record_stream::<'_, '_>", [Ref(fresh), False], None))
+            items = M.find_stream(st).items
+            res["streamed"] = [(it.variant, it.fields[0].v) for it in items]
         ctx.scen = res
 
     def decide(res, cond, what, key):
@@ -321,6 +327,20 @@ def run_scenario(prog, scen):
                 decide(res, cond, "rows after apply are not the old rows followed by the new records", "rows after apply")
                 ids = [x["event_id"].v for x in my_rows]
                 decide(res, z3.BoolVal(ids == sorted(ids)), "event ids are not increasing in append order", "order after apply")
+                # the records streamed back carry commit, payload and timestamp of what was appended, in order
+                st = sc.get("streamed")
+                if st is not None:
+                    want = [(c, p, i) for i, (_, c, p) in enumerate(mine)] + [(c, p, tix) for c, p, tix in sc["new"]]
+                    if len(st) != len(want) or any(v != "Ok" for v, _ in st):
+                        decide(res, False, "record_stream yields %d records (%s) for %d rows" % (len(st), [v for v, _ in st], len(want)), "stream length")
+                    else:
+                        conds = []
+                        for (_, rec), (c, p, tix) in zip(st, want):
+                            conds.append(first_byte(rec.fields[2].v) == c)
+                            conds.append(M.as_bytes(None, rec.fields[3].v).byte(0).z3() == p)
+                            tv = rec.fields[0].v.fields[0].v          # UtcDateTime(OffsetDateTime)
+                            conds.append(bz3(M.eq_formula(eng, tv, time_value(tix).fields[0].v, 8)))
+                        decide(res, z3.And(*conds), "a record streamed back differs from what was appended (commit, payload or timestamp)", "streamed record differs")
         elif op[0] in ("replace", "patch"):
             new = sc["new"]
             ql = sc["proof_leaves"]
